@@ -210,9 +210,172 @@ def image_utils_contracts():
     return [gj, gi]
 
 
+# =====================================================================================
+# (a) target resolution: resolver functions
+# =====================================================================================
+def resolver_contract():
+    """zip_utils.resolve_part_name(base_dir, target) == RESOLVE(base_dir, target), for all strings (unbounded)."""
+    def inv(lc):
+        ex = lc.ex
+        parts = ex.zterm(lc.st, lc["parts"])
+        resolved = ex.zterm(lc.st, lc["resolved"])
+        if parts is None or resolved is None:
+            return z3.BoolVal(False)
+        lc.st.assume(SP.fold_defn(parts, lc.i))      # definition of the spec fold at the current prefix
+        return resolved == SP.FOLD(z3.SubSeq(parts, 0, lc.i))
+
+    return FnContract(
+        target=f"{ZIPU}::resolve_part_name",
+        params=[("base_dir", p_str()), ("target", p_str())],
+        returns=lambda c: VStr(SP.RESOLVE(c.args["base_dir"].t, c.args["target"].t)),
+        raises=[],
+        loops={0: LoopSpec(inv=inv, label="segment-fold")},
+        note="OPC part-name resolution: absolute targets are package-root relative, '..' pops, '.' and empty segments are dropped",
+    )
+
+
+def delegating_resolvers():
+    """Format-level resolvers: their result must be RESOLVE(<directory of the source part>, target)."""
+    out = []
+    out.append(FnContract(
+        target=f"{PPTX}::_normalize_relative_path",
+        params=[("base_dir", p_str()), ("target", p_str())],
+        returns=lambda c: VStr(SP.RESOLVE(c.args["base_dir"].t, c.args["target"].t)),
+        raises=[], note="pptx: relationship target against the slide directory"))
+    out.append(FnContract(
+        target=f"{XLSX}::_resolve_drawing_path",
+        params=[("target", p_str())],
+        returns=lambda c: VStr(SP.RESOLVE(z3.StringVal("xl/worksheets"), c.args["target"].t)),
+        raises=[], note="xlsx: sheet -> drawing relationship target; the source part is xl/worksheets/sheetN.xml"))
+    return out
+
+
+# =====================================================================================
+# (a) target resolution: read sites (program slices of the real statements)
+# =====================================================================================
+ODT = EX + "open_office/odt_extractor.py"
+ODP = EX + "open_office/odp_extractor.py"
+ODS = EX + "open_office/ods_extractor.py"
+ODG = EX + "open_office/odg_extractor.py"
+HREF_KEYS = ("_ATTR_XLINK_HREF", "href")
+
+# base: how the spec obtains the directory of the part that holds the reference
+SITES = [
+    dict(rel=PPTX, fn="_process_slide_from_context", sinks=("get_image_data",), keys=("target",), base=("dirname", "slide_path"), label="slide-image",
+         why="source part = the slide part `slide_path`"),
+    dict(rel=DOCX, fn="_extract_images_from_context", sinks=("get_image_data",), keys=("target",), base=("const", "word"), label="document-image",
+         why="source part = word/document.xml"),
+    dict(rel=XLSX, fn="_extract_images_from_zip", sinks=("read_bytes",), keys=("target",), base=("dirname", "drawing_path"), label="drawing-image",
+         why="source part = the drawing part `drawing_path`"),
+    dict(rel=EPUB, fn="_extract_images", sinks=("read_bytes",), keys=("href",), base=("field", "ctx", "_opf_dir"), label="manifest-image",
+         why="source part = the OPF package document", makers={"ctx": ("obj", "_EpubContext", ("_opf_dir",))}),
+    dict(rel=ODT, fn="_extract_images_from_context", sinks=("read_bytes",), keys=HREF_KEYS, base=("const", ""), label="frame-image",
+         why="ODF: package-relative IRI resolved against the package root"),
+    dict(rel=ODP, fn="_extract_image", sinks=("read_bytes",), keys=HREF_KEYS, base=("const", ""), label="frame-image", why="ODF root"),
+    dict(rel=ODS, fn="_extract_images", sinks=("read_bytes",), keys=HREF_KEYS, base=("const", ""), label="frame-image", why="ODF root"),
+    dict(rel=ODG, fn="_extract_images", sinks=("read_bytes",), keys=HREF_KEYS, base=("const", ""), label="frame-image", why="ODF root"),
+]
+
+
+def _unvalidated_to_unknown(o):
+    """A solver model of a VC over uninterpreted spec functions (SEGS / FOLD / JOINS / jpeg chain) is not a refutation
+    (DESIGN 2.5.3b): the obligation stays open and goes to the native small-scope search (REPLAY_UNKNOWN)."""
+    if o["status"] == "refuted":
+        o["status"] = "unknown"
+        o["reason"] = ("solver model not validated against the real functions; " + (o.get("reason") or "")).strip("; ")
+    return o
+
+
+def post_report(c, rep):
+    rep.obligations = [_unvalidated_to_unknown(o) for o in rep.obligations]
+
+
+def run_site(site, repo, reg=None, uni=None):
+    from pyvc import verify
+    from pyvc.contracts import Registry
+    from pyvc.exctypes import Universe
+    from pyvc.verify import p_obj
+    from contracts import c14_flow as F
+    rel, fname = site["rel"], site["fn"]
+    short = rel.split("/")[-1]
+    mod = loader.module(rel, repo)
+    fn = mod.functions.get(fname)
+    base_id = f"C14/{short}::{fname}/resolution#{site['label']}"
+    if fn is None:
+        return {"obligations": [], "functions": [], "undecided": [{"obligation": f"{rel}::{fname}", "why": "contract-target-missing"}]}
+    if reg is None:
+        reg = Registry()
+        for c in contracts(reg):
+            reg.add(c)
+        uni = Universe(repo)
+    sinks = F.method_calls(fn, site["sinks"])
+    obls = []
+    if not sinks:
+        obls.append(ground_obligation(base_id, False, f"no {site['sinks']} call found: shape not recognised", rel, kind="resolution", definite=False))
+    keys = site["keys"]
+    for k, call in enumerate(sinks):
+        oid = f"{base_id}-{k}" if len(sinks) > 1 else base_id
+        extra = [site["base"][1]] if site["base"][0] in ("dirname", "field") else []
+        f, sl = F.build_slice_function(fn, call.args[0], call, lambda e: F.is_lookup_of(e, keys), extra_params=extra, extra_sources=extra)
+        if f is None:
+            obls.append(ground_obligation(oid, False, f"slice not computable: {sl.why}", rel, kind="resolution", definite=False))
+            continue
+        if "__target" not in sl.sources:
+            obls.append(ground_obligation(oid, False, "the name read does not depend on a relationship target / href", rel, kind="resolution", definite=False))
+            continue
+        makers = site.get("makers", {})
+        params = []
+        for a in f.args.args:
+            m = makers.get(a.arg)
+            if m is not None and m[0] == "obj":
+                params.append((a.arg, p_obj(m[1], {fld: p_str() for fld in m[2]})))
+            else:
+                params.append((a.arg, p_str()))
+        b = site["base"]
+
+        def returns(c, b=b):
+            t = c.args["__target"].t
+            if b[0] == "const":
+                base = z3.StringVal(b[1])
+            elif b[0] == "dirname":
+                base = SP.DIRNAME(c.args[b[1]].t)
+            else:
+                base = c.entry.obj(c.args[b[1]].ref).data[b[2]].t
+            return VStr(SP.RESOLVE(base, t))
+        c = FnContract(target=f"{rel}::{fname}", params=params, returns=returns, raises=[Raises("Exception", sub=True)])
+        ex = C14Executor(mod, reg, uni)
+        ex.contract = c
+        ex.oid_prefix = "slice"
+        try:
+            got, _cov = verify.generate(ex, c, mod, f)
+        except Exception as e:  # noqa  (Unsupported, PathLimit: the slice left the subset -> undecided)
+            obls.append(ground_obligation(oid, False, f"slice not executable: {type(e).__name__}: {e}", rel, kind="resolution", definite=False))
+            continue
+        ob = got.get("slice/returns")
+        if ob is None:
+            obls.append(ground_obligation(oid, False, "slice has no normal outcome", rel, kind="resolution", definite=False))
+            continue
+        d = verify.discharge(ob, None, getattr(ex, "witness_terms", {}))
+        d = _unvalidated_to_unknown(d)
+        d.update(id=oid, kind="resolution", loc=f"{rel}:{call.lineno}", function=f"{rel}::{fname}",
+                 replay_hint={"site": site["label"], "slice": ast.unparse(f), "base": list(b)})
+        obls.append(d)
+    return {"obligations": obls, "functions": [dict(mod.fn_info(fname), obligations=len(obls))]}
+
+
+def _site_runner(i):
+    def run(repo, tier):
+        return run_site(SITES[i], repo)
+    run.__name__ = f"site_{SITES[i]['rel'].split('/')[-1].split('.')[0]}_{SITES[i]['fn']}"
+    return run
+
+
+EXTRA = [_site_runner(i) for i in range(len(SITES))]
+
+
 def contracts(reg):
     X.install_models(reg)
-    out = []
+    out = [resolver_contract()] + delegating_resolvers()
     for rel in (DOCX, PPTX, XLSX):
         out.append(sniffer_contract(rel))
     out.extend(image_utils_contracts())
